@@ -58,6 +58,7 @@ take place; distinct = distinct hash of (program, source, mode, layout).",
             "probe.tree_with_low32_id_collision",
             "probe.inherited_read_resolved_by_ancestor",
             "probe.model_expects_failure",
+            "probe.strict_read_between_definitions",
             "probe.read_through_list_element",
             "probe.read_through_chain",
             "probe.layout.descending",
@@ -92,6 +93,9 @@ enum Stz {
     DefTag { query: String, name: String },
     /// `let @c.LINK = @f` (syntax-node-valued)
     DefLink { query: String, name: String },
+    /// `for y in @ys { let @x.NAME = TAG(@x) }`: one definition on the fixed node @x per list
+    /// element (a duplicate as soon as the list has two elements)
+    DefInLoop { query: String, name: String },
     /// reader: `attr (n) rd, self = TAG(@y), got = @y.NAME`
     ReadDirect { query: String, name: String },
     /// reader through a list capture `@ys` and `for`
@@ -124,6 +128,17 @@ const DEF_QUERIES: &[&str] = &[
     "(assignment left: (identifier) @x)",
     "(argument_list (_) @x)",
     "(module (_) @x)",
+    // the variable goes on a fixed node while the match varies: defined once per child
+    "(module (_) @_c) @x",
+    "(argument_list (_) @_c) @x",
+    "(block (_) @_c) @x",
+    "(call arguments: (argument_list (_) @_c)) @x",
+];
+
+const DEF_LOOP_QUERIES: &[&str] = &[
+    "(argument_list (_)* @ys) @x",
+    "(parameters (identifier)* @ys) @x",
+    "(block (_)+ @ys) @x",
 ];
 
 const READ_DIRECT: &[&str] = &[
@@ -251,7 +266,11 @@ fn gen_schema(r: &mut Rng) -> Schema {
             }
             let n = r.range(1, 3);
             for _ in 0..n {
-                s.stanzas.push(Stz::DefTag { query: (*r.pick(DEF_QUERIES)).into(), name: name.clone() });
+                if r.chance(1, 5) {
+                    s.stanzas.push(Stz::DefInLoop { query: (*r.pick(DEF_LOOP_QUERIES)).into(), name: name.clone() });
+                } else {
+                    s.stanzas.push(Stz::DefTag { query: (*r.pick(DEF_QUERIES)).into(), name: name.clone() });
+                }
             }
             let m = r.range(1, 3);
             for _ in 0..m {
@@ -292,6 +311,12 @@ fn render(s: &Schema, order: &[usize]) -> String {
             Stz::DefLink { query, name } => {
                 out.push_str(&format!("{}\n{{\n  let @c.{} = @f\n}}\n\n", query, name))
             }
+            Stz::DefInLoop { query, name } => out.push_str(&format!(
+                "{}\n{{\n  for y in @ys {{\n    let @x.{} = {}\n  }}\n}}\n\n",
+                query,
+                name,
+                tag_expr("@x")
+            )),
             Stz::ReadDirect { query, name } => out.push_str(&format!(
                 "{}\n{{\n  node n\n  attr (n) rd = \"{}\", self = {}, got = @y.{}\n}}\n\n",
                 query,
@@ -346,108 +371,134 @@ struct Expected {
     chain_reads: usize,
 }
 
-/// The reference model.
-fn model(s: &Schema, tree: &Tree, source: &str) -> Result<Expected, String> {
+/// The reference model.  In lazy mode every definition is collected before any read is
+/// resolved; in strict mode stanzas run in file order, so a read sees exactly the definitions
+/// made by the stanzas before it (and the nearest ancestor is the nearest one defined *then*).
+fn model(s: &Schema, order: &[usize], lazy: bool, tree: &Tree, source: &str) -> Result<Expected, String> {
     let mut e = Expected::default();
-    // (name -> node id -> tag) and (link name -> node id -> target node)
     let mut tags: BTreeMap<String, BTreeMap<usize, String>> = BTreeMap::new();
     let mut links: BTreeMap<String, BTreeMap<usize, Node>> = BTreeMap::new();
-    for st in &s.stanzas {
-        match st {
-            Stz::DefTag { query, name } => {
-                for m in matches(query, "x", tree, source)? {
-                    for n in m {
-                        e.definitions += 1;
-                        if tags.entry(name.clone()).or_default().insert(n.id(), tag_of(&n)).is_some() {
-                            e.fails = true;
-                            e.why = format!("{} defined twice on {}", name, tag_of(&n));
-                        }
-                    }
-                }
-            }
-            Stz::DefLink { query, name } => {
-                let cs = matches(query, "c", tree, source)?;
-                let fs = matches(query, "f", tree, source)?;
-                for (c, f) in cs.iter().zip(fs.iter()) {
-                    e.definitions += 1;
-                    if links.entry(name.clone()).or_default().insert(c[0].id(), f[0]).is_some() {
-                        e.fails = true;
-                        e.why = format!("{} defined twice on {}", name, tag_of(&c[0]));
-                    }
-                }
-            }
-            _ => {}
-        }
-    }
-    let lookup = |name: &str, n: &Node, inherited_hits: &mut usize| -> Option<String> {
-        let map = tags.get(name)?;
-        if let Some(t) = map.get(&n.id()) {
-            return Some(t.clone());
-        }
-        if s.inherits.iter().any(|i| i == name) {
-            let mut p = n.parent();
-            while let Some(a) = p {
-                if let Some(t) = map.get(&a.id()) {
-                    *inherited_hits += 1;
-                    return Some(t.clone());
-                }
-                p = a.parent();
-            }
-        }
-        None
+    // two passes in lazy mode (definitions, then reads); one pass in file order in strict mode
+    let passes: Vec<(Vec<usize>, bool, bool)> = if lazy {
+        vec![(order.to_vec(), true, false), (order.to_vec(), false, true)]
+    } else {
+        vec![(order.to_vec(), true, true)]
     };
-    for (idx, st) in s.stanzas.iter().enumerate() {
-        match st {
-            Stz::ReadDirect { query, name } => {
-                for m in matches(query, "y", tree, source)? {
-                    let n = m[0];
-                    e.reads += 1;
-                    match lookup(name, &n, &mut e.inherited_reads) {
-                        Some(t) => e.rows.push((idx.to_string(), tag_of(&n), t)),
-                        None => {
-                            e.fails = true;
-                            e.why = format!("{} undefined on {}", name, tag_of(&n));
-                        }
-                    }
-                }
+    for (idxs, do_defs, do_reads) in passes {
+        for idx in idxs {
+            if e.fails && !lazy {
+                break; // strict execution stops at the first error
             }
-            Stz::ReadList { query, name } => {
-                for m in matches(query, "ys", tree, source)? {
-                    for n in m {
-                        e.reads += 1;
-                        e.list_reads += 1;
-                        match lookup(name, &n, &mut e.inherited_reads) {
-                            Some(t) => e.rows.push((idx.to_string(), tag_of(&n), t)),
-                            None => {
+            let st = &s.stanzas[idx];
+            match st {
+                Stz::DefTag { query, name } if do_defs => {
+                    for m in matches(query, "x", tree, source)? {
+                        for n in m {
+                            e.definitions += 1;
+                            if tags.entry(name.clone()).or_default().insert(n.id(), tag_of(&n)).is_some() {
                                 e.fails = true;
-                                e.why = format!("{} undefined on {}", name, tag_of(&n));
+                                e.why = format!("{} defined twice on {}", name, tag_of(&n));
                             }
                         }
                     }
                 }
-            }
-            Stz::ReadChain { query, link, name } => {
-                for m in matches(query, "c", tree, source)? {
-                    let c = m[0];
-                    e.reads += 1;
-                    e.chain_reads += 1;
-                    let target = links.get(link).and_then(|l| l.get(&c.id())).cloned();
-                    match target {
-                        None => {
-                            e.fails = true;
-                            e.why = format!("{} undefined on {}", link, tag_of(&c));
-                        }
-                        Some(t) => match lookup(name, &t, &mut e.inherited_reads) {
-                            Some(v) => e.rows.push((idx.to_string(), tag_of(&c), v)),
-                            None => {
+                Stz::DefInLoop { query, name } if do_defs => {
+                    let xs = matches(query, "x", tree, source)?;
+                    let ys = matches(query, "ys", tree, source)?;
+                    for (x, y) in xs.iter().zip(ys.iter()) {
+                        for _ in y {
+                            e.definitions += 1;
+                            if tags.entry(name.clone()).or_default().insert(x[0].id(), tag_of(&x[0])).is_some() {
                                 e.fails = true;
-                                e.why = format!("{} undefined on {}", name, tag_of(&t));
+                                e.why = format!("{} defined twice on {}", name, tag_of(&x[0]));
                             }
-                        },
+                        }
                     }
                 }
+                Stz::DefLink { query, name } if do_defs => {
+                    let cs = matches(query, "c", tree, source)?;
+                    let fs = matches(query, "f", tree, source)?;
+                    for (c, f) in cs.iter().zip(fs.iter()) {
+                        e.definitions += 1;
+                        if links.entry(name.clone()).or_default().insert(c[0].id(), f[0]).is_some() {
+                            e.fails = true;
+                            e.why = format!("{} defined twice on {}", name, tag_of(&c[0]));
+                        }
+                    }
+                }
+                Stz::ReadDirect { .. } | Stz::ReadList { .. } | Stz::ReadChain { .. } if do_reads => {
+                    let lookup = |name: &str, n: &Node, inherited_hits: &mut usize| -> Option<String> {
+                        let map = tags.get(name)?;
+                        if let Some(t) = map.get(&n.id()) {
+                            return Some(t.clone());
+                        }
+                        if s.inherits.iter().any(|i| i == name) {
+                            let mut p = n.parent();
+                            while let Some(a) = p {
+                                if let Some(t) = map.get(&a.id()) {
+                                    *inherited_hits += 1;
+                                    return Some(t.clone());
+                                }
+                                p = a.parent();
+                            }
+                        }
+                        None
+                    };
+                    match st {
+                        Stz::ReadDirect { query, name } => {
+                            for m in matches(query, "y", tree, source)? {
+                                let n = m[0];
+                                e.reads += 1;
+                                match lookup(name, &n, &mut e.inherited_reads) {
+                                    Some(t) => e.rows.push((idx.to_string(), tag_of(&n), t)),
+                                    None => {
+                                        e.fails = true;
+                                        e.why = format!("{} undefined on {}", name, tag_of(&n));
+                                    }
+                                }
+                            }
+                        }
+                        Stz::ReadList { query, name } => {
+                            for m in matches(query, "ys", tree, source)? {
+                                for n in m {
+                                    e.reads += 1;
+                                    e.list_reads += 1;
+                                    match lookup(name, &n, &mut e.inherited_reads) {
+                                        Some(t) => e.rows.push((idx.to_string(), tag_of(&n), t)),
+                                        None => {
+                                            e.fails = true;
+                                            e.why = format!("{} undefined on {}", name, tag_of(&n));
+                                        }
+                                    }
+                                }
+                            }
+                        }
+                        Stz::ReadChain { query, link, name } => {
+                            for m in matches(query, "c", tree, source)? {
+                                let c = m[0];
+                                e.reads += 1;
+                                e.chain_reads += 1;
+                                let target = links.get(link).and_then(|l| l.get(&c.id())).cloned();
+                                match target {
+                                    None => {
+                                        e.fails = true;
+                                        e.why = format!("{} undefined on {}", link, tag_of(&c));
+                                    }
+                                    Some(t) => match lookup(name, &t, &mut e.inherited_reads) {
+                                        Some(v) => e.rows.push((idx.to_string(), tag_of(&c), v)),
+                                        None => {
+                                            e.fails = true;
+                                            e.why = format!("{} undefined on {}", name, tag_of(&t));
+                                        }
+                                    },
+                                }
+                            }
+                        }
+                        _ => {}
+                    }
+                }
+                _ => {}
             }
-            _ => {}
         }
     }
     e.rows.sort();
@@ -462,6 +513,7 @@ pub struct Case {
     pub policy: Policy,
     pub hash_seed: u64,
     pub layout_seed: u64,
+    pub order: Vec<usize>,
     schema: Option<Schema>,
     /// replay files carry the model verdict computed at discovery time for information only;
     /// the replay recomputes it
@@ -475,6 +527,7 @@ fn schema_to_json(s: &Schema) -> J {
         .map(|x| match x {
             Stz::DefTag { query, name } => json!({"k": "deftag", "query": query, "name": name}),
             Stz::DefLink { query, name } => json!({"k": "deflink", "query": query, "name": name}),
+            Stz::DefInLoop { query, name } => json!({"k": "defloop", "query": query, "name": name}),
             Stz::ReadDirect { query, name } => json!({"k": "read", "query": query, "name": name}),
             Stz::ReadList { query, name } => json!({"k": "readlist", "query": query, "name": name}),
             Stz::ReadChain { query, link, name } => {
@@ -499,6 +552,7 @@ fn schema_from_json(j: &J) -> Schema {
                     .map(|x| match x["k"].as_str().unwrap_or("") {
                         "deftag" => Stz::DefTag { query: g(x, "query"), name: g(x, "name") },
                         "deflink" => Stz::DefLink { query: g(x, "query"), name: g(x, "name") },
+                        "defloop" => Stz::DefInLoop { query: g(x, "query"), name: g(x, "name") },
                         "read" => Stz::ReadDirect { query: g(x, "query"), name: g(x, "name") },
                         "readlist" => Stz::ReadList { query: g(x, "query"), name: g(x, "name") },
                         _ => Stz::ReadChain { query: g(x, "query"), link: g(x, "link"), name: g(x, "name") },
@@ -541,7 +595,7 @@ fn check_case(case: &Case) -> Result<(Stats, Option<Found>), String> {
     let (n, coll) = alloc::id_collisions(&tree);
     st.nodes = n;
     st.collisions = coll;
-    let exp = model(&schema, &tree, &case.source)?;
+    let exp = model(&schema, &case.order, case.lazy, &tree, &case.source)?;
     st.expected_fail = exp.fails;
     st.definitions = exp.definitions;
     st.reads = exp.reads;
@@ -633,12 +687,21 @@ pub fn make_case(ctx: &ShardCtx, i: u64) -> Case {
     let policy = Policy::ALL[r.weighted(&[2, 2, 2, 4, 2])];
     let schema = gen_schema(&mut Rng::sub(seed, "schema"));
     let mut order: Vec<usize> = (0..schema.stanzas.len()).collect();
-    if lazy && r.chance(1, 2) {
+    let interleave = r.chance(1, 2);
+    if interleave {
+        // any order: in strict mode a read sees only what earlier stanzas defined
         r.shuffle(&mut order);
+        if !lazy {
+            // keep one definer in front so that most reads still resolve
+            if let Some(p) = order.iter().position(|i| matches!(schema.stanzas[*i], Stz::DefTag { .. })) {
+                let d = order.remove(p);
+                order.insert(0, d);
+            }
+        }
     } else {
         // strict needs definers first
         order.sort_by_key(|i| match schema.stanzas[*i] {
-            Stz::DefTag { .. } | Stz::DefLink { .. } => 0,
+            Stz::DefTag { .. } | Stz::DefLink { .. } | Stz::DefInLoop { .. } => 0,
             _ => 1,
         });
     }
@@ -650,6 +713,7 @@ pub fn make_case(ctx: &ShardCtx, i: u64) -> Case {
     let source = pysrc::gen_source(&mut Rng::sub(seed, "src"), &scfg);
     Case {
         text: render(&schema, &order),
+        order: order.clone(),
         source,
         lazy,
         policy,
@@ -668,6 +732,7 @@ fn case_json(c: &Case) -> J {
         "layout": c.policy.name(),
         "hash_seed": c.hash_seed,
         "layout_seed": c.layout_seed,
+        "order": c.order,
         "schema": c.schema_json,
     })
 }
@@ -680,6 +745,7 @@ fn case_from_json(j: &J) -> Case {
         policy: Policy::parse(j["layout"].as_str().unwrap_or("compact")).unwrap_or(Policy::Compact),
         hash_seed: j["hash_seed"].as_u64().unwrap_or(0),
         layout_seed: j["layout_seed"].as_u64().unwrap_or(0),
+        order: j["order"].as_array().map(|a| a.iter().map(|x| x.as_u64().unwrap_or(0) as usize).collect()).unwrap_or_default(),
         schema: None,
         schema_json: j["schema"].clone(),
     }
@@ -791,6 +857,10 @@ pub fn run_shard(ctx: &ShardCtx, rep: &mut Report) {
         rep.add("probe.inherited_read_resolved_by_ancestor", st.inherited_reads as u64);
         rep.add("probe.read_through_list_element", st.list_reads as u64);
         rep.add("probe.read_through_chain", st.chain_reads as u64);
+        let defs_first = case.order.iter().map(|i| match case_stanza_is_def(&case, *i) { true => 0, false => 1 }).collect::<Vec<_>>();
+        if !case.lazy && defs_first.windows(2).any(|w| w[0] > w[1]) && !st.expected_fail && st.inherited_reads > 0 {
+            rep.count("probe.strict_read_between_definitions");
+        }
         if st.expected_fail {
             rep.count("probe.model_expects_failure");
         } else {
@@ -838,6 +908,13 @@ pub fn run_shard(ctx: &ShardCtx, rep: &mut Report) {
             }
         }
     }
+}
+
+fn case_stanza_is_def(c: &Case, i: usize) -> bool {
+    c.schema
+        .as_ref()
+        .map(|s| matches!(s.stanzas[i], Stz::DefTag { .. } | Stz::DefLink { .. } | Stz::DefInLoop { .. }))
+        .unwrap_or(false)
 }
 
 fn signature(c: &Case, f: &Found) -> String {
